@@ -77,6 +77,26 @@ def check(ctx):
             seen.add((gen.key_of(ts), tuple(items)))
             if k < 1:
                 ctx.sample(payload)
+        # a LARGE bound missed by a SMALL amount (and met with the same small margin): the violation is real (everything is dyadic) although
+        # it is tiny relative to the bound -- membership is decided on the sign of the exact difference, not up to a relative tolerance
+        if k % 3 == 0:
+            C = F(rng.choice([8, 64, 1024, 4096, 65536])) * rng.choice([1, 3, 5])
+            other = rng.choice([v for v in gen.VARS[:4] if v != "x"] or ["y"])
+            big = [({"x": F(1), other: F(rng.choice([1, -1, 2]))}, C), ({"x": F(-1)}, F(0))] + ([({other: F(1)}, F(5))] if rng.random() < 0.5 else [])
+            bl_ = gen.mktl(big)
+            for j in (10, 14, 20):
+                for sgn in (1, -1):
+                    items = [("x", C + sgn * F(1, 2 ** j)), (other, F(0))]
+                    beh = {Var(x): float(v) for x, v in items}
+                    okind, v, calls = pp.observe(lambda: bl_.contains_behavior(beh))
+                    exprs.append(f"c_contains {cf.terms(big)} {cf.pvars(items)} {pp.exp_bool(okind, v)}")
+                    cases.append(("contains", big, items, okind, v))
+                    seen.add((gen.key_of(big), tuple(items)))
+                    truth = sgn < 0
+                    hist["contained" if truth else "not_contained"] += 1
+                    if okind != "ok" or v != truth:
+                        ctx.violation("contains:wrong_answer", "contains_behavior disagrees with exact evaluation (a large bound missed / met by a small dyadic amount)",
+                                      {"terms": [cf.jsonable_term(t) for t in big], "behavior": {x: str(q) for x, q in items}, "answer": v if okind == "ok" else list(v)})
         # emptiness
         mode = rng.choice(["as_is", "thin_feasible", "thin_infeasible", "infeasible", "box_later_variable_empty", "constant_rows"])
         es = list(ts)
